@@ -464,8 +464,10 @@ package io
 //@   atmake [allocation_bounded_by_what_was_read] makecap <= len(dec.buf)
 //@   ensures [result_never_aliases_the_input] result != nil ==> isnew(arr(result))
 
+// (assumed) converter lookup: it calls methods of the source type, which must exist
 //@ func GetConverter
 //@   havoc
+//@   requires [source_type_is_known] src != nil
 
 // ---- composite decoders ------------------------------------------------------------------------
 //
